@@ -1122,6 +1122,8 @@ def run_probe19(tier, seed, th):
 def run_probe(prop, tier, seed, th):
     if prop == 'C19':
         return run_probe19(tier, seed, th)
+    if prop in ('C02', 'C05'):
+        prop = 'C16'   # pricing and settlement rest on the metering arithmetic: the same probe (afb / prop cases)
     cdir = os.path.join(CACHE, th, 'probe_%s_%s_%d' % (prop, tier, seed))
     summ = os.path.join(cdir, 'summary.json')
     if os.path.exists(summ):
@@ -1140,7 +1142,7 @@ def run_probe(prop, tier, seed, th):
         p = subprocess.run([hubmodel(), '--probe'], stdin=fi, stdout=fo, stderr=subprocess.PIPE, timeout=3600)
     if p.returncode != 0:
         raise Broken('model probe failed: ' + p.stderr.decode(errors='replace')[-1500:])
-    res = {'evaluations': 0, 'distinct': 0, 'violations': [], 'samples': [], 'rule': 'pure-function differential: real functions vs. the Lean spec and the regenerated definitions on boundary-biased inputs'}
+    res = {'evaluations': 0, 'distinct': 0, 'violations': [], 'samples': [], 'rule': 'pure-function differential on boundary-biased inputs: the real functions against the Lean SPECIFICATION inside the domain of the exactness theorems (chargeSpec, shareSpec, ceilToSpec; Hub/SDK/MeterSpec.lean), against the regenerated definitions over the hand-written sdkmath model outside it'}
     kinds = set()
     with open(cases) as fc, open(impl) as fi, open(model) as fm:
         for c, a, b in zip(fc, fi, fm):
